@@ -170,3 +170,22 @@ Definition AcyclicFiles (fs : fsys) : Prop :=
 
 Definition NoTwin (fs : fsys) (m0 : model) : Prop :=
   forall k sm, fs_model fs k = Some sm -> model_equals m0 sm = false.
+
+(* "No units and no component depends on itself", for the models an importer state can reach from m0: ranks on
+   (model, entity name), bounded by Bu / Bc, that strictly decrease along unit references and along linked imports,
+   and do not increase from a component to its encapsulated children.  (What hasUnresolvedImports / isDefined /
+   the pre-flatten scan walk: they follow the links of the state, not the file system.) *)
+Definition NoSelfDependence (st : state) (m0 : model) (urank crank : owner -> string -> nat) (Bu Bc : nat) : Prop :=
+  (forall o n, urank o n < Bu) /\
+  (forall o n, crank o n < Bc) /\
+  (forall o cm n refs r cu, content st m0 o = Some cm -> In (ULocal n refs) (m_units cm) -> In r refs ->
+     find_units (m_units cm) r = Some cu -> urank o (uname cu) < urank o n) /\
+  (forall o cm n sid url ref sm iu, content st m0 o = Some cm -> In (UImp n sid url ref) (m_units cm) ->
+     linked_model st o sid url = Some sm -> find_units (m_units sm) ref = Some iu ->
+     urank (Some (mk_key url)) (uname iu) < urank o n) /\
+  (forall o cm n sid url ref used kids sm ic, content st m0 o = Some cm ->
+     In (Comp n (Some (sid, url, ref)) used kids) (all_comps cm) ->
+     linked_model st o sid url = Some sm -> find_comp (m_comps sm) ref = Some ic ->
+     crank (Some (mk_key url)) (cname ic) < crank o n) /\
+  (forall o cm c k, content st m0 o = Some cm -> In c (all_comps cm) -> In k (ckids c) ->
+     crank o (cname k) <= crank o (cname c)).
